@@ -1,0 +1,11 @@
+//go:build verif
+
+package desync
+
+// Accessors for the verification harness (build tag verif). No behaviour.
+
+// VerifDiscriminator exposes discriminatorFromAvg.
+func VerifDiscriminator(avg uint64) uint32 { return discriminatorFromAvg(avg) }
+
+// VerifGoodbyeBST exposes makeGoodbyeBST.
+func VerifGoodbyeBST(in []FormatGoodbyeItem) []FormatGoodbyeItem { return makeGoodbyeBST(in) }
